@@ -51,6 +51,8 @@ type c07Env struct {
 	wrapped int
 	// stuck: set when a call with a live context did not return
 	stuck string
+	// notCtxErr: a report whose context ended returned an error that is not (does not wrap) the context's error
+	notCtxErr string
 }
 
 // report performs a report through the source (Blank.SetSource for the blank
@@ -76,6 +78,9 @@ func (c *c07Env) report(ctx context.Context, client, src int, l *conc.Layer, blo
 	}()
 	select {
 	case o := <-ch:
+		if cerr := ctx.Err(); cerr != nil && o.err != nil && (o.res == conc.ResNotSubmitted || o.res == conc.ResSubmittedUnk) && !errors.Is(o.err, cerr) && c.notCtxErr == "" {
+			c.notCtxErr = fmt.Sprintf("report of %s from source %d (blocking=%v): context ended with %q, the call returned %q, which errors.Is does not recognise as that context error", l, src, blocking, cerr, o.err)
+		}
 		return o.res, o.err
 	case <-time.After(20 * time.Second):
 		if ctx.Err() == nil {
@@ -683,6 +688,10 @@ func runC07(w *fw.Worker) {
 		if c.stuck != "" {
 			stuckVerdict(w, i, c.stuck, desc)
 			e.S.Cancel()
+			return
+		}
+		if c.notCtxErr != "" {
+			w.Violation(i, "context-ended-report-did-not-return-a-context-error", c.notCtxErr, desc)
 			return
 		}
 		e.Read(1)
